@@ -580,6 +580,9 @@ let q_is (it : item) (args : string list) : string =
   res_str (fun ms ->
     match args with
     | ["names"] -> "[" ^ String.concat ";" (List.map (fun m -> string_of_str m.im_name) ms) ^ "]"
+    | ["allnames"] ->
+        (* the snake-cased name of EVERY declared variant (used to probe that no method exists for a disabled one) *)
+        "[" ^ String.concat ";" (List.map (fun v -> string_of_str (snakify v.v_ident)) it.i_variants) ^ "]"
     | _j :: i :: _ ->
       let vi = nat_of_int (int_of_string i) in
       "[" ^ String.concat ";" (List.map (fun m -> string_of_str m.im_name ^ "=" ^ (if run_is m vi then "1" else "0")) ms) ^ "]"
